@@ -334,6 +334,11 @@ let spec_line (f : string list) : string =
   | ["v2"; x] ->
     let x = mbytes x in
     (match v2_spec x with Some h -> v2_hdr h | None -> "REJ") ^ " possible=" ^ b01 (v2_possible x)
+  | ["v1b"; x] | ["v1s"; x] | ["v1fh"; x] -> (match spec_v1 (mbytes x) with Some h -> v1_hdr h | None -> "REJ")
+  | ["v1fa"; x] -> (match spec_v1 (mbytes x) with Some h -> "OK " ^ v1_addr h.addr | None -> "REJ")
+  | ["std"; "u16"; x] -> (match spec_port (mbytes x) with Some n -> "OK " ^ nstr n | None -> "ERR")
+  | ["std"; "ip4"; x] -> (match spec_ip4 (mbytes x) with Some o -> "OK " ^ hexs o | None -> "ERR")
+  | ["std"; "ip6"; x] -> (match spec_ip6 (mbytes x) with Some o -> "OK " ^ hexs o | None -> "ERR")
   | ["tlv"; x] -> "[" ^ show_sitems (walk (mbytes x)) ^ "]"
   | ["htlv"; x] ->
     (match v2_spec (mbytes x) with
